@@ -1,2 +1,68 @@
-From Burrow Require Import ClusterMod.
-Example placeholder_C12 : True. Proof. exact I. Qed.
+(* C12 — topic deletion is detected exactly.
+   `l` is any list of (metadata ticker fired?, environment) pairs: all sequences of metadata snapshots interleaved
+   with failures of the topic-list and partition-list calls; `en`, `a`, `b`, `c` are cycles of the run of a fresh
+   module; en_ghost = the last completely refreshed environment before the cycle. *)
+From Coq Require Import ZArith List Bool.
+From Burrow Require Import ClusterMod ClusterModProofs.
+Import ListNotations.
+Open Scope Z_scope.
+
+Theorem C12_delete_exactly_once : forall l en t,
+  In en (trace init_state None l) ->
+  (In t (co_deletes (en_out en)) <->
+     exists ts, refreshed (en_pre en) (en_env en) = Some ts /\ ~ In t ts /\ In t (ghost_topics (en_ghost en)))
+  /\ NoDup (co_deletes (en_out en)).
+Proof. exact delete_exactly_once. Qed.
+
+Theorem C12_one_deletion_per_disappearance : forall l l1 a l2 b l3 t,
+  trace init_state None l = l1 ++ a :: l2 ++ b :: l3 ->
+  In t (co_deletes (en_out a)) -> In t (co_deletes (en_out b)) ->
+  exists c ts, In c l2 /\ refreshed (en_pre c) (en_env c) = Some ts /\ In t ts.
+Proof. exact one_deletion_per_disappearance. Qed.
+
+Theorem C12_failed_refresh_keeps_snapshot : forall st e o,
+  cycle st e = Done o -> refreshed st e = None ->
+  snap (co_state o) = snap st /\ co_deletes o = [].
+Proof. exact failed_refresh_keeps_snapshot. Qed.
+
+Theorem C12_refreshed_iff : forall st e ts,
+  refreshed st e = Some ts <->
+  fetchMetadata st = true /\ e_topics e = Good ts /\ exists new, build_snapshot e ts = Some new.
+Proof. exact refreshed_some. Qed.
+
+Theorem C12_refresh_fails_iff : forall e ts,
+  build_snapshot e ts = None <-> exists t, In t ts /\ topic_info e t = None.
+Proof. exact build_none. Qed.
+
+Theorem C12_leaderless_not_deleted : forall st e o ts t,
+  wf st -> cycle st e = Done o -> refreshed st e = Some ts -> In t ts ->
+  (forall p, e_leader e t p = Fail) ->
+  ~ In t (co_deletes o)
+  /\ (exists i, smap_find t (snap (co_state o)) = Some i /\ ti_ids i = [])
+  /\ (forall b p, ~ In (b, t, p) (co_asks o)).
+Proof. exact leaderless_not_deleted. Qed.
+
+Theorem C12_present_not_deleted : forall st e o ts t,
+  wf st -> cycle st e = Done o -> e_topics e = Good ts -> In t ts -> ~ In t (co_deletes o).
+Proof. exact present_not_deleted. Qed.
+
+Theorem C12_run_entries : forall l en,
+  In en (trace init_state None l) ->
+  wf (en_pre en) /\ cycle (en_pre en) (en_env en) = Done (en_out en).
+Proof. exact run_entries. Qed.
+
+Theorem C12_run_is_trace : forall l st g,
+  exists tail,
+    run st l = map (fun en => (fetchMetadata (en_pre en), Done (en_out en))) (trace st g l) ++ tail
+    /\ (tail = [] \/ exists f, tail = [(f, Crash)]).
+Proof. exact run_is_trace. Qed.
+
+Print Assumptions C12_delete_exactly_once.
+Print Assumptions C12_one_deletion_per_disappearance.
+Print Assumptions C12_failed_refresh_keeps_snapshot.
+Print Assumptions C12_refreshed_iff.
+Print Assumptions C12_refresh_fails_iff.
+Print Assumptions C12_leaderless_not_deleted.
+Print Assumptions C12_present_not_deleted.
+Print Assumptions C12_run_entries.
+Print Assumptions C12_run_is_trace.
